@@ -122,10 +122,15 @@ _BASE = {}
 
 
 def _inst(tier):
-    return [{"scen": s, "P": 1 if tier == "quick" else 2, "eie": e} for s in SCEN for e in ((0, 1) if s in ("two_immediate", "exit_if_empty_restart", "two_clients") else (0,))]
+    base = [{"scen": s, "eie": e} for s in SCEN for e in ((0, 1) if s in ("two_immediate", "exit_if_empty_restart", "two_clients") else (0,))]
+    if tier == "quick":
+        return [dict(i, P=1, lo=0, hi=10 ** 6) for i in base]
+    # thorough: 2 ordered preemptions; the first position is chunked over instances
+    return [dict(i, P=2, lo=lo, hi=hi) for i in base for lo, hi in gate.position_chunks(320, 16)]
 
 
-@harness(instances=_inst, p0=I(0, 300), pos=I(0, 300, n=lambda i: i["P"] - 1), tgt=I(0, 3, n=lambda i: i["P"]), timeout=(240, 1800), stock=False)
+@harness(instances=_inst, p0=I(lambda i: i["lo"], lambda i: min(i["hi"], 400)), pos=I(0, 400, n=lambda i: i["P"] - 1), tgt=I(0, 1, n=lambda i: i["P"]),
+         timeout=(240, 900), stock=False)
 def h_loop(a, inst):
     gate.GRANULARITY = "coarse"
 
@@ -159,12 +164,9 @@ def h_loop(a, inst):
     ok0, L = _BASE[key]
     if not ok0:
         return False
-    pre = [a.p0] + list(a.pos)
-    preempts = []
-    for i in range(inst["P"]):
-        if pre[i] > L + 2:
-            return True  # positions beyond the end of the run are all "no preemption" (covered by the baseline run)
-        preempts.append((gate.concrete(pre[i], 0, L + 2), gate.concrete(a.tgt[i], 0, 3)))
+    preempts = gate.pick_schedule(a, inst, L, 2)
+    if preempts is None:
+        return True
     with gate.untraced():
         ok, _ = run(preempts)
     cover("ran")
